@@ -4,7 +4,7 @@ import copy
 
 from harness import common
 
-EXTRA_OBLIGATION_FILES = ("Props/C20_archives.v", "Props/C20_src.v",)
+EXTRA_OBLIGATION_FILES = ("Props/C20_archives.v", "Props/C20_src.v", "Props/C20_resistance_src.v",)
 
 LEVEL_NOTE = ("Theorems for embedded archives, combinations (all sequences of members: first wins, union, each key once) "
               "and directories (abstract stem/match functions, instantiated with string models of splitext and the "
@@ -194,6 +194,44 @@ def fs_obs(case):
 
 
 # ------------------------------------------------------------ driver side
+
+LABEL_POOL = ["KanR", "CamR", "CmR", "KnR", "AmpR", "SmR", "SpecR", "kanr", "KanR ", "AmpR promoter", "ori", "ColE1",
+              "BsaI", "Kanamycin", "", "CmR Terminator"]
+SRC_IMPORTS = """From MV Require Import Base Regex Typing Py PyObj Glue SrcStructRun.
+From Coq Require Import String List.
+Import ListNotations.
+Open Scope string_scope.
+"""
+
+
+def resistance_obs(feats):
+    """find_resistance on a record whose features carry the given /label qualifiers (None: no such qualifier), and on
+    two records that have the same cassettes: label values de-duplicated; features without any label dropped"""
+    out = _resistance_obs(feats)
+    dedup = [None if l is None else [x for i, x in enumerate(l) if x not in l[:i]] for l in feats]
+    out["dedup"] = _resistance_obs(dedup)["out"]
+    out["dropped"] = _resistance_obs([l for l in feats if l])["out"]
+    return out
+
+
+def _resistance_obs(feats):
+    from Bio.Seq import Seq
+    from Bio.SeqRecord import SeqRecord
+    from Bio.SeqFeature import SeqFeature, FeatureLocation
+    from moclo.registry._utils import find_resistance
+    rec = SeqRecord(Seq("ACGT" * 10), id="r")
+    for k, labels in enumerate(feats):
+        q = {"note": ["n%d" % k]}
+        if labels is not None:
+            q["label"] = list(labels)
+        rec.features.append(SeqFeature(FeatureLocation(k % 30, k % 30 + 5, strand=1), type="misc_feature", qualifiers=q))
+    try:
+        return {"out": find_resistance(rec)}
+    except RuntimeError as e:
+        return {"out": None, "exc": "RuntimeError"}
+    except Exception as e:  # noqa
+        return {"out": None, "exc": type(e).__name__, "msg": str(e)[:200]}
+
 
 def cs(s):
     return '"%s"' % s.replace('"', '""')
@@ -444,6 +482,40 @@ def run(ctx):
                                   "observable": "keys / len / found-ness of FilesystemRegistry vs Registry.fs_*",
                                   "model_fn": "Registry.fs_iter/fs_len/fs_lookup"})
     ctx.sample({"directory": fcases[0]["entries"], "keys": fobs[0]["iter"]})
+    # ---- find_resistance: random /label qualifiers (known cassettes, near-misses, repeated values, several cassettes on
+    # one feature, features without the qualifier) — the implementation against the function regenerated from _utils.py
+    rcases = []
+    for _ in range(300 if ctx.quick else 4000):
+        feats = []
+        for _ in range(ctx.rng.randrange(0, 6)):
+            r = ctx.rng.random()
+            if r < 0.2:
+                feats.append(None)
+            else:
+                pool = LABEL_POOL[7:] if ctx.rng.random() < 0.35 else LABEL_POOL
+                feats.append([ctx.rng.choice(pool) for _ in range(ctx.rng.randrange(0, 4))])
+        rcases.append(feats)
+    robs = common.run_impl(ctx, "C20", "resistance_obs", rcases)
+    rterms = []
+    for c, o in zip(rcases, robs):
+        ctx.evaluations += 1
+        ctx.count("find_resistance:" + ("found" if o["out"] else "RuntimeError" if o.get("exc") == "RuntimeError" else "other"))
+        if o["out"]:
+            ctx.nontriv(c)
+        if (o["out"] is None and o.get("exc") != "RuntimeError") or (o["out"] is not None and o["out"] not in RESISTANCES):
+            ctx.violations.append({"signature": "C20:find_resistance:%s" % (o.get("exc") or "unknown-antibiotic"), "input": {"labels": c},
+                                   "what": "find_resistance gives %r / %s" % (o["out"], o.get("exc"))})
+        if o["dedup"] != o["out"] or o["dropped"] != o["out"]:
+            ctx.violations.append({"signature": "C20:find_resistance:same-cassettes-other-answer", "input": {"labels": c},
+                                   "what": "find_resistance gives %r, but %r with repeated label values removed and %r without "
+                                           "the features that carry no label" % (o["out"], o["dedup"], o["dropped"])})
+        rterms.append("([%s], %s)" % ("; ".join("None" if l is None else "Some [%s]" % "; ".join(cs(x) for x in l) for l in c),
+                                      copt(o["out"])))
+    bad = common.coq_eval_cases(ctx, "ressrc", SRC_IMPORTS, rterms, "check_resistance_src", per_file=500)
+    for b in bad:
+        ctx.disagreements.append({"case": {"labels": rcases[b]}, "impl": robs[b],
+                                  "observable": "find_resistance vs find_resistance as regenerated from the source",
+                                  "model_fn": "Gen/Src.v find_resistance_src"})
 
 
 def replay(ctx, data):
@@ -452,6 +524,12 @@ def replay(ctx, data):
     if not case:
         print("nothing to replay")
         return 2
+    if "labels" in case:
+        o = common.run_impl(ctx, "C20", "resistance_obs", [case["labels"]])[0]
+        print("implementation:", o)
+        bad = (o["out"] is None and o.get("exc") != "RuntimeError") or (o["out"] is not None and o["out"] not in RESISTANCES) \
+            or o["dedup"] != o["out"] or o["dropped"] != o["out"]
+        return 1 if bad else 0
     if "entries" in case:
         o = common.run_impl(ctx, "C20", "fs_obs", [case])[0]
         print("implementation:", o)
